@@ -743,6 +743,26 @@ pub fn random_image(rng: &mut Rng, max_extent: u32) -> Image {
             RenderAssetUsages::MAIN_WORLD | RenderAssetUsages::RENDER_WORLD,
         );
     }
+    if rng.chance(1, 12) {
+        // one extent beyond 16 bit (a CPU-side image may be larger than any GPU limit): a thin line or strip
+        let format = *rng.pick(&[TextureFormat::R8Unorm, TextureFormat::R8Uint, TextureFormat::Rg8Unorm]);
+        let px = format.pixel_size();
+        let long = 65_536 + rng.below(2000) as u32;
+        let (dim, w, h, d) = match rng.below(4) {
+            0 => (TextureDimension::D1, long, 1, 1),
+            1 => (TextureDimension::D2, long, 1, 1),
+            2 => (TextureDimension::D2, 1, long, 1),
+            _ => (TextureDimension::D2, 1, 1, long),
+        };
+        let data = payload(rng, (w as usize) * (h as usize) * (d as usize) * px);
+        return Image::new(
+            Extent3d { width: w, height: h, depth_or_array_layers: d },
+            dim,
+            data,
+            format,
+            RenderAssetUsages::MAIN_WORLD | RenderAssetUsages::RENDER_WORLD,
+        );
+    }
     let format = *rng.pick(&formats);
     let px = format.pixel_size();
     let (dim, mut w, mut h, mut d) = match rng.below(3) {
